@@ -92,9 +92,9 @@ SingleCases ==
       steps |-> << Step("skew", MScale(w, Cross(k)), SolSkew(k, w, Tau(tg[1], EffA(tg[2])), F0), tg[1], tg[2]) >>] :
         k \in SkewAxes, w \in {Q(1), Q(3)}, F0 \in F0s, tg \in TG}
 
-\* one very long call: simple shear to a shear strain of 50 in a single update (thousands of solver steps)
+\* one very long call: simple shear to a shear strain of 100 in a single update (thousands of solver steps)
 LongCases == {[kind |-> "long", F0 |-> MatToSeq(F0),
-               steps |-> << Step("nil", N, SolNil(N, Q(25), F0), Q(25), [via |-> "const", a |-> QZ]) >>] :
+               steps |-> << Step("nil", N, SolNil(N, Q(50), F0), Q(50), [via |-> "const", a |-> QZ]) >>] :
                  N \in {MScale(Q(2), E3(1, 3)), MScale(Q(2), E3(2, 1))}, F0 \in {MId, IntMat(<<<<2, 0, 1>>, <<-1, 1, 0>>, <<0, 1, 1>>>>)}}
 
 \* piecewise histories: products of nilpotent steps, each an update call (or several)
